@@ -86,6 +86,16 @@ func ddistReplay(in io.Reader, raw bool, args []string) (*Summary, error) {
 				variance = big.NewRat(dc.VarN, dc.VarD)
 			}
 		}
+		// far outside the support, up to the largest floats and the infinities: zero mass; CDF 0 below and 1 above
+		for _, x := range []float64{1e6 + 0.5, 4.5e18, math.Ldexp(1, 62), math.Ldexp(1, 63), 1e19, 1e300, math.MaxFloat64, math.Inf(1)} {
+			sum.Checks++
+			if gp, gc := d.PMF(x), d.CDF(x); gp != 0 || gc != 1 {
+				sum.viol("support", c, "far above the support at %v: PMF=%v CDF=%v", x, gp, gc)
+			}
+			if gp, gc := d.PMF(-x), d.CDF(-x); gp != 0 || gc != 0 {
+				sum.viol("support", c, "far below the support at %v: PMF=%v CDF=%v", -x, gp, gc)
+			}
+		}
 		sum.Checks++
 		if lo, hi := d.Bounds(); lo != float64(dc.Lo) || hi != float64(dc.Hi) {
 			sum.viol("Bounds", c, "Bounds=(%v,%v) want (%d,%d)", lo, hi, dc.Lo, dc.Hi)
